@@ -588,7 +588,10 @@ func (qd *queueDelivery) Body(ctx context.Context, header textproto.Header, body
 	}
 
 	qd.body = storedBody
-	qd.header = header
+	// The caller may go on adding fields to its header (copies of
+	// textproto.Header share their storage), keep our own copy for the
+	// first delivery attempt.
+	qd.header = header.Copy()
 	return nil
 }
 
